@@ -116,6 +116,7 @@ class Interp:
         self.trace = []
         self.glob_cache = {}
         self.quant_collect = None
+        self.after_await = None
 
     # -- path control --------------------------------------------------------------------
     @property
@@ -1021,6 +1022,9 @@ class Interp:
         obj = self.resolve(obj)
         if not isinstance(obj, VObj):
             raise EngineError(f'attribute store on {obj!r}')
+        if self.after_await is not None and self.mode == 'code' and obj is self.after_await[0]:
+            self.fail(f'{self.cur_fn}.state-access-after-await.{attr}',
+                      f'{attr} written after the suspension point at {self.after_await[1]}')
         self.touch(('field', obj.ident, attr))
         if isinstance(v, _Linked_types) and v.parent is not None:
             v = self.detach(v)
@@ -1358,6 +1362,17 @@ class Interp:
         # the class invariant (and any declared `holds`) must be re-established before the
         # task can be suspended
         tag = self.stmt_tag(e)
+        if spec.get('holds_inv'):
+            root = fr
+            while root.parent is not None and 'self' not in root.env:
+                root = root.parent
+            selfv = self.spec_env(fr).get('self')
+            cs = self.reg.classes.get(selfv.cls) if isinstance(selfv, VObj) else None
+            for lab, inv in (cs.inv if cs else []):
+                self.prove(f'{self.fn_label(fr)}.rely@{tag}.{lab}', self.spec_bool(inv, {'self': selfv}),
+                           where=self.where(e, fr))
+            if spec.get('no_access_after'):
+                self.after_await = (selfv, self.where(e, fr))
         for lab, cond in [(_l(i, x)) for i, x in enumerate(spec.get('holds', []))]:
             self.prove(f'{self.fn_label(fr)}.rely@{tag}.{lab}', self.spec_bool(cond, self.spec_env(fr), fr.old),
                        where=self.where(e, fr))
